@@ -63,11 +63,15 @@ type KnownFinding struct {
 	Trigger string `json:"trigger"`
 	Mode    string `json:"mode"`
 	// Modes lists further failure modes of the same root cause on the same trigger.
-	Modes   []string `json:"modes,omitempty"`
-	What    string   `json:"what"`
-	Witness string   `json:"witness,omitempty"`
-	Commit  string   `json:"commit,omitempty"`
-	Note    string   `json:"note,omitempty"`
+	Modes []string `json:"modes,omitempty"`
+	// CasesFile (relative to /verif), when set, lists the exact failing cases of this
+	// finding, one "caseKey<TAB>mode" per line: only those cases are attributed to it.
+	CasesFile string `json:"cases_file,omitempty"`
+	cases     map[string]bool
+	What      string `json:"what"`
+	Witness   string `json:"witness,omitempty"`
+	Commit    string `json:"commit,omitempty"`
+	Note      string `json:"note,omitempty"`
 }
 
 func (k *KnownFinding) hasMode(m string) bool {
@@ -244,6 +248,35 @@ func (c *Ctx) SpecError(format string, a ...any) {
 	c.mu.Unlock()
 }
 
+// FailCase is Fail for findings that enumerate their failing cases: the failure is a
+// listed known finding only if (caseKey, mode) is in the finding's cases file.
+func (c *Ctx) FailCase(trigger, mode, caseKey string, replay any) bool {
+	c.mu.Lock()
+	for i := range c.known {
+		k := &c.known[i]
+		if k.Status != "known" || k.Trigger != trigger || k.CasesFile == "" {
+			continue
+		}
+		if k.cases == nil {
+			k.cases = map[string]bool{}
+			if b, err := os.ReadFile(filepath.Join(c.Root, k.CasesFile)); err == nil {
+				for _, l := range strings.Split(string(b), "\n") {
+					if l != "" {
+						k.cases[l] = true
+					}
+				}
+			}
+		}
+		if k.cases[caseKey+"\t"+mode] {
+			c.knownHit[k.ID] = k.What
+			c.mu.Unlock()
+			return true
+		}
+	}
+	c.mu.Unlock()
+	return c.Fail(trigger+" ["+caseKey+"]", mode, replay)
+}
+
 // Fail records a property-level disagreement of the real code with the model.
 // trigger/mode form the signature matched against known findings; replay is any
 // JSON-serialisable description sufficient to reproduce the case.
@@ -252,7 +285,7 @@ func (c *Ctx) Fail(trigger, mode string, replay any) bool {
 	c.mu.Lock()
 	defer c.mu.Unlock()
 	for _, k := range c.known {
-		if k.Status == "known" && k.Trigger == trigger && k.hasMode(mode) {
+		if k.Status == "known" && k.CasesFile == "" && k.Trigger == trigger && k.hasMode(mode) {
 			c.knownHit[k.ID] = k.What
 			if k.Witness != "" && os.Getenv("VERIF_WRITE_WITNESS") != "" {
 				// development aid: materialise the pinned witness of a listed finding
@@ -288,7 +321,7 @@ func (c *Ctx) IsKnown(trigger, mode string) bool {
 	c.mu.Lock()
 	defer c.mu.Unlock()
 	for _, k := range c.known {
-		if k.Status == "known" && k.Trigger == trigger && k.hasMode(mode) {
+		if k.Status == "known" && k.CasesFile == "" && k.Trigger == trigger && k.hasMode(mode) {
 			return true
 		}
 	}
